@@ -6,6 +6,8 @@
 
 package py
 
+import "math/big"
+
 // A python Slice object
 type Slice struct {
 	Start Object
@@ -60,7 +62,7 @@ func (r *Slice) GetIndices(length int) (start, stop, step, slicelength int, err 
 	if r.Step == None {
 		step = 1
 	} else {
-		step, err = IndexInt(r.Step)
+		step, err = sliceIndexInt(r.Step)
 		if err != nil {
 			return
 		}
@@ -90,7 +92,7 @@ func (r *Slice) GetIndices(length int) (start, stop, step, slicelength int, err 
 	if r.Start == None {
 		start = defstart
 	} else {
-		start, err = IndexInt(r.Start)
+		start, err = sliceIndexInt(r.Start)
 		if err != nil {
 			return
 		}
@@ -117,7 +119,7 @@ func (r *Slice) GetIndices(length int) (start, stop, step, slicelength int, err 
 	if r.Stop == None {
 		stop = defstop
 	} else {
-		stop, err = IndexInt(r.Stop)
+		stop, err = sliceIndexInt(r.Stop)
 		if err != nil {
 			return
 		}
@@ -149,6 +151,21 @@ func (r *Slice) GetIndices(length int) (start, stop, step, slicelength int, err 
 	}
 
 	return
+}
+
+// As IndexInt, but integers too big for an int are clamped, not rejected
+// (as _PyEval_SliceIndex does): x[:2**100] is the same as x[:]
+func sliceIndexInt(a Object) (int, error) {
+	if b, ok := a.(*BigInt); ok {
+		if _, err := b.Int(); err != nil {
+			const maxInt = int(^uint(0) >> 1)
+			if (*big.Int)(b).Sign() < 0 {
+				return -maxInt - 1, nil
+			}
+			return maxInt, nil
+		}
+	}
+	return IndexInt(a)
 }
 
 func (a *Slice) M__eq__(other Object) (Object, error) {
